@@ -23,18 +23,26 @@
 #include <myth/myth.h>
 #include "myth_verif.h"
 
-static volatile long n_really, n_stopped, stop_rank = -1, really_nw = -1;
+static volatile long n_really, n_stopped, stop_rank = -1, really_nw = -1, enter_rank = -1;
 static void hook(int pt, const void * a, const void * b, long v) {
   (void)a; (void)b;
   if (pt == MYTH_VP_INIT_REALLY) { __sync_fetch_and_add(&n_really, 1); really_nw = v; }
   if (pt == MYTH_VP_FINI_STOPPED) { __sync_fetch_and_add(&n_stopped, 1); stop_rank = v; }
+  if (pt == MYTH_VP_FINI_WAITED) enter_rank = v;
 }
 
-static int os_threads(void) {
+static int os_threads_now(void) {
   int n = 0; DIR * d = opendir("/proc/self/task"); struct dirent * e;
   if (!d) return -1;
   while ((e = readdir(d))) if (e->d_name[0] != '.') n++;
   closedir(d);
+  return n;
+}
+/* pthread_join returns when the thread has exited, a little before the kernel removes its entry
+   from /proc/self/task: wait (at most 300 ms) for the count to come down to what is expected */
+static int os_threads(int expect) {
+  int n = os_threads_now(), i;
+  for (i = 0; i < 600 && n > expect; i++) { usleep(500); n = os_threads_now(); }
   return n;
 }
 
@@ -45,31 +53,36 @@ static char * dec(const char * s) {
   b[n] = 0; return b;
 }
 
+static long elapsed_ns(const struct timespec * t0) {
+  struct timespec t1; clock_gettime(CLOCK_MONOTONIC, &t1);
+  return (t1.tv_sec - t0->tv_sec) * 1000000000L + (t1.tv_nsec - t0->tv_nsec);
+}
+
 typedef struct { int rank, nw; } rep_t;
 static void * reporter(void * a) {
   rep_t * r = a;
+  struct timespec t0; clock_gettime(CLOCK_MONOTONIC, &t0);
   r->rank = myth_get_worker_num();
   r->nw = myth_get_num_workers();
+  while (elapsed_ns(&t0) < 30000L) { }     /* long enough for the creator to be stolen */
   myth_yield();
   return 0;
 }
 
-static volatile int spin_flag;
+static volatile int spin_flag, spin_done;
 static void * spinner(void * a) {
   (void)a;
-  /* occupy this worker WITHOUT yielding (at most ~2 ms) so that the creator's continuation, which
+  /* occupy this worker WITHOUT yielding (at most ~30 ms) so that the creator's continuation, which
      sits in this worker's queue (child first), can only go on by being stolen by another worker */
-  struct timespec t0, t1; clock_gettime(CLOCK_MONOTONIC, &t0);
-  while (!spin_flag) {
-    clock_gettime(CLOCK_MONOTONIC, &t1);
-    if ((t1.tv_sec - t0.tv_sec) * 1000000000L + (t1.tv_nsec - t0.tv_nsec) > 2000000L) break;
-  }
+  struct timespec t0; clock_gettime(CLOCK_MONOTONIC, &t0);
+  while (!spin_flag && elapsed_ns(&t0) < 30000000L) { }
+  spin_done = 1;
   return 0;
 }
 
 static void summary(const char * what, int rc) {
   size_t stk = 0; myth_globalattr_get_stacksize(0, &stk);
-  printf("%s rc=%d nw=%d stk=%zu really=%ld threads=%d\n", what, rc, myth_get_num_workers(), stk, n_really, os_threads());
+  printf("%s rc=%d nw=%d stk=%zu really=%ld threads=%d\n", what, rc, myth_get_num_workers(), stk, n_really, os_threads(myth_get_num_workers()));
 }
 
 int main(void) {
@@ -116,10 +129,13 @@ int main(void) {
       free(r); free(th);
     } else if (!strcmp(op, "migrate")) {
       int tries = 0, nw = myth_get_num_workers();
-      while (nw > 1 && myth_get_worker_num() == 0 && tries < 500) {
-        spin_flag = 0;
+      while (nw > 1 && myth_get_worker_num() == 0 && tries < 20) {
+        spin_flag = 0; spin_done = 0;
         myth_thread_t th = myth_create(spinner, 0);   /* child first: our continuation is stealable */
         spin_flag = 1;
+        struct timespec t0; clock_gettime(CLOCK_MONOTONIC, &t0);
+        while (!spin_done && elapsed_ns(&t0) < 100000000L) { }   /* let the child finish: the join then does not block */
+        while (elapsed_ns(&t0) < 200000L) { }
         myth_join(th, 0);
         tries++;
       }
@@ -127,8 +143,10 @@ int main(void) {
       printf("migrate done\n");
     } else if (!strcmp(op, "fini")) {
       long before = n_stopped; stop_rank = -1;
+      enter_rank = -1;
       myth_fini();
-      printf("fini really=%ld threads=%d stoprank=%ld\n", n_really, os_threads(), n_stopped > before ? stop_rank : -1L);
+      printf("# fini entered on rank=%ld\n", enter_rank);
+      printf("fini really=%ld threads=%d stoprank=%ld\n", n_really, os_threads(1), n_stopped > before ? stop_rank : -1L);
     } else {
       printf("bad-op\n");
     }
